@@ -580,10 +580,26 @@ def spec_definition(node, funcs, tab):
   return value
 
 
-def custom_case(name):
+def predecessor_text(name, pair_text=None):
+  """an earlier model of the same process: the same file except that the forms called by other forms have another formula"""
+  forms, pair = CUSTOM[name]
+  out, changed = [], False
+  for sig, formula in forms:
+    label = sig.split("(")[0].strip()
+    if any((label + "(") in f2 for s2, f2 in forms if s2 != sig):
+      out.append((sig, "(%s) + 1.25" % formula))
+      changed = True
+    else:
+      out.append((sig, formula))
+  if not changed:
+    return None
+  return "[Tabulation]\ntarget : LAMMPS\n\n[Pair]\nA-B : %s\n\n[Potential-Form]\n%s\n" % (pair_text or pair, "\n".join("%s = %s" % f for f in out))
+
+
+def custom_case(name, history=False):
   from atsim.potentials.config import ConfigParser
   from atsim.potentials.config import _cexprtk_potential_function as cpf
-  res = new_result("custom forms: %s" % name)
+  res = new_result("custom forms: %s%s" % (name, " after a model whose inner forms have other formulae" if history else ""))
   bad = exprstub.validate()
   if bad:
     res["harness_errors"].append("cexprtk stub disagrees with the real cexprtk: %s" % "; ".join(bad[:3]))
@@ -600,6 +616,10 @@ def custom_case(name):
     tab = {t: sym("p%d" % int(t - 100)) for t in tags}
     for t in tab.values():
       assume(t > 0)
+    if history:
+      # the earlier model is built and evaluated first (same process, same symbols)
+      cp0 = ConfigParser(io.StringIO(predecessor_text(name)))
+      built_function("Pair", _SubstParser(cp0, tab))(r)
     scp = _SubstParser(cp, tab)
     f_real = built_function("Pair", scp)
     f_spec = spec_definition(cp.pair[0].potential_form_instance, spec_functions(forms), tab)
@@ -611,10 +631,10 @@ def custom_case(name):
     got, want = path.value
     if wrong:
       want = want + 1
-    return [VC("formula", eq_formula(got, want), info=dict(key="custom-%s" % name))]
+    return [VC("formula", eq_formula(got, want), info=dict(key="custom-%s%s" % (name, "-after-earlier-model" if history else "")))]
 
   def replay(v, w, path, structural):
-    c, d, rec = common.in_fresh_process("checks.c09", "replay_custom", name, {k: v_ for k, v_ in w.items() if isinstance(v_, float) and not k.endswith("#exact")})
+    c, d, rec = common.in_fresh_process("checks.c09", "replay_custom", name, {k: v_ for k, v_ in w.items() if isinstance(v_, float) and not k.endswith("#exact")}, history)
     return bool(c), d, rec
 
   try:
@@ -625,10 +645,11 @@ def custom_case(name):
   return res
 
 
-def replay_custom(name, w):
+def replay_custom(name, w, history=False):
   """Concrete: the real Configuration (real cexprtk) versus the formulas
   evaluated with explicitly bound parameters, over every listing order of the
-  [Potential-Form] entries and both separators."""
+  [Potential-Form] entries and both separators.  history: a model whose inner forms
+  have other formulae is read and evaluated first."""
   from atsim.potentials.config import Configuration, ConfigParser
   import re
   forms, pair = CUSTOM[name]
@@ -650,6 +671,8 @@ def replay_custom(name, w):
       for sep in ("=", ":"):
         text = "[Tabulation]\ntarget : LAMMPS\n\n[Pair]\nA-B %s %s\n\n[Potential-Form]\n%s\n" % (sep, ptxt, "\n".join("%s %s %s" % (s, sep, f) for s, f in order))
         try:
+          if history:
+            Configuration().read(io.StringIO(predecessor_text(name, ptxt))).potentials[0].potentialFunction(1.5)
           tab = Configuration().read(io.StringIO(text))
           f_real = tab.potentials[0].potentialFunction
         except Exception as e:  # noqa
@@ -734,6 +757,8 @@ def cases(tier, seed=0):
         cs.append(Case("siblings %d v%d%s" % (i, which, " swapped" if swapped else ""), sibling_case, idx=i, defn=defs[i], which=which, swapped=swapped))
   for name in CUSTOM:
     cs.append(Case("custom %s" % name, custom_case, name=name))
+    if predecessor_text(name) is not None:
+      cs.append(Case("custom %s after an earlier model" % name, custom_case, name=name, history=True))
   cs.append(Case("formatting", formatting_case, tier=tier, seed=seed))
   for nm in ("key_transform_spec", "key_transform_idempotent"):
     cs.append(Case("xh %s" % nm, xh_case, name=nm, timeout=60 if q else 300))
